@@ -35,45 +35,40 @@ def _shifted(c):
     return sum(1 for m in c["members"] if m["selected"] and m["idx"] != m["m"])
 
 
-def _runs(cases, k, rnd, with_intruder):
-    """choose k (exclusion set, signer set) pairs of the 3-of-5 fixture group for real signing: prefer shifted signers,
-    distinct exclusion sets, exactly-threshold quorums first"""
+def _runs(cases, k, rnd):
+    """choose k (exclusion set, signer set) pairs of the 3-of-5 fixture group for real signing:
+    A = one seat excluded, exactly-threshold signer set with >= 2 shifted signers (one final index stays unselected),
+    B = two seats excluded (quorum 3), C = everything else (no exclusion, larger signer sets)."""
     pool = [c for c in cases if c["n"] == 5 and c["h"] == 3 and c["outcome"] == "valid"]
-    seen, out = set(), []
-
-    def key(c):
-        return (c["quorum"], tuple(c["excluded"]), tuple(c["signers"]))
-    shifted = [c for c in pool if c["excluded"] and _shifted(c) >= 2 and len(c["signers"]) == 3]
-    rnd.shuffle(shifted)
-    by_excl = {}
-    for c in shifted:
-        by_excl.setdefault(tuple(c["excluded"]), []).append(c)
-    excls = list(by_excl)
-    rnd.shuffle(excls)
-    i = 0
-    while len(out) < max(1, (2 * k + 2) // 3) and excls:
-        e = excls[i % len(excls)]
-        if by_excl[e]:
-            c = by_excl[e].pop()
-            if key(c) not in seen:
-                seen.add(key(c))
+    a = [c for c in pool if len(c["excluded"]) == 1 and len(c["signers"]) == 3 and _shifted(c) >= 2]
+    b = [c for c in pool if len(c["excluded"]) == 2]
+    ids = set(id(c) for c in a + b)
+    rest = [c for c in pool if id(c) not in ids]
+    for lst in (a, b, rest):
+        rnd.shuffle(lst)
+    na, nb = max(1, (5 * k) // 12), max(1, k // 4)
+    # distinct exclusion sets first
+    def spread(lst, n):
+        out, seen = [], set()
+        for c in lst:
+            if tuple(c["excluded"]) not in seen and len(out) < n:
+                seen.add(tuple(c["excluded"]))
                 out.append(c)
-        elif all(not v for v in by_excl.values()):
-            break
-        i += 1
-    rest = [c for c in pool if key(c) not in seen]
-    rnd.shuffle(rest)
-    for c in rest:
-        if len(out) >= k:
-            break
-        seen.add(key(c))
-        out.append(c)
-    runs = []
-    for j, c in enumerate(out):
+        for c in lst:
+            if len(out) < n and not any(c is o for o in out):
+                out.append(c)
+        return out
+    out = spread(a, na) + spread(b, nb)
+    out += rest[:max(0, k - len(out))]
+    runs, intruded = [], False
+    for c in out:
         g = 5 - len(c["excluded"])
         unsel = [f for f in range(1, g + 1) if f not in c["signers"]]
+        intr = []
+        if unsel and not intruded:
+            intr, intruded = unsel, True       # every unselected signer runs too
         runs.append({"n": 5, "h": 3, "quorum": c["quorum"], "excluded": c["excluded"], "signers": c["signers"],
-                     "intruder": (unsel[0] if (with_intruder and unsel and j == 1) else 0)})
+                     "intruders": intr})
     return runs
 
 
@@ -103,8 +98,10 @@ def run(ctx):
     if any(c["outcome"] not in ("valid", "nowallet") for c in cases):
         ctx.broken("model emitted a terminal state that is neither valid nor nowallet")
     # 3. every case on the real code of all stages + real signing of chosen quorums (one test binary)
-    runs = _runs(cases, ctx.pick(3, 12), rnd, True)
-    ctx.note("real signing runs: %s" % [(r["excluded"], r["signers"], r["intruder"]) for r in runs])
+    runs = _runs(cases, ctx.pick(3, 12), rnd)
+    if not any(r["intruders"] for r in runs):
+        ctx.broken("no real signing run with unselected signers")
+    ctx.note("real signing runs: %s" % [(r["excluded"], r["signers"], r["intruders"]) for r in runs])
     inputs = {"cases.ndjson": cases, "runs.ndjson": runs}
     tests = "^TestVerif_C08_(Pipeline|Sign)$"
     if ctx.thorough:
